@@ -1,6 +1,6 @@
 #!/bin/sh
 # tools/seedcheck.sh <ID> [worktree] : confirms a seeded change (tests pass, demo fails with / passes without) and runs the property's checks against it
-ID=$1; WT=${2:-/tmp/seed/$ID}; OUT=${3:-/tmp/seed/$ID.out}
+ID=$1; BASE=${SEEDBASE:-/tmp/seed}; WT=${2:-$BASE/$ID}; OUT=${3:-$BASE/$ID.out}
 cd $WT || exit 2
 echo "--- patch"; git diff --stat | tail -3
 echo "--- build+ctest with the change"
@@ -8,11 +8,11 @@ cmake --build _build >/dev/null 2>&1; ctest --test-dir _build -j8 --timeout 900 
 DEMO=$(ls $OUT/demo.py $OUT/demo.sh 2>/dev/null | head -1)
 if [ -n "$DEMO" ]; then
   echo "--- demo with the change (expect non-zero)"
-  (cd $OUT && timeout 300 unshare -n sh -c "ip link set lo up; exec $( [ "${DEMO##*.}" = py ] && echo python3 || echo sh ) $DEMO" >/tmp/seed/$ID.demo_with.log 2>&1); echo "rc=$?"; tail -3 /tmp/seed/$ID.demo_with.log
-  git diff > /tmp/seed/$ID.reapply.diff; git apply -R /tmp/seed/$ID.reapply.diff; cmake --build _build >/dev/null 2>&1
+  (cd $OUT && timeout 300 unshare -n sh -c "ip link set lo up; exec $( [ "${DEMO##*.}" = py ] && echo python3 || echo sh ) $DEMO" >$BASE/$ID.demo_with.log 2>&1); echo "rc=$?"; tail -3 $BASE/$ID.demo_with.log
+  git diff > $BASE/$ID.reapply.diff; git apply -R $BASE/$ID.reapply.diff; cmake --build _build >/dev/null 2>&1
   echo "--- demo without the change (expect 0)"
-  (cd $OUT && timeout 300 unshare -n sh -c "ip link set lo up; exec $( [ "${DEMO##*.}" = py ] && echo python3 || echo sh ) $DEMO" >/tmp/seed/$ID.demo_without.log 2>&1); echo "rc=$?"; tail -2 /tmp/seed/$ID.demo_without.log
-  git apply /tmp/seed/$ID.reapply.diff; cmake --build _build >/dev/null 2>&1
+  (cd $OUT && timeout 300 unshare -n sh -c "ip link set lo up; exec $( [ "${DEMO##*.}" = py ] && echo python3 || echo sh ) $DEMO" >$BASE/$ID.demo_without.log 2>&1); echo "rc=$?"; tail -2 $BASE/$ID.demo_without.log
+  git apply $BASE/$ID.reapply.diff; cmake --build _build >/dev/null 2>&1
 fi
 echo "--- property check against the change"
 cd /verif && VERIF_REPO=$WT python3 checks/run $ID --tier quick 2>&1 | grep "key:\|$ID quick\|HARNESS" | cut -c1-200 | head -12
